@@ -114,6 +114,7 @@ func ruleMirror(p *Program, r *Result) {
 			}
 		}
 		got := map[string]ssa.Value{}
+		mirrored := map[string]bool{} // fields taken over by copying the stored header as a whole
 		badOpt := ""
 		var opts [][2]ssa.Value
 		var hdrVal ssa.Value
@@ -125,6 +126,22 @@ func ruleMirror(p *Program, r *Result) {
 				continue
 			}
 			okLit := true
+			// the literal may start as a copy of the stored request header (header := r.header) with some fields
+			// stored afterwards: every field not stored explicitly is then the stored header's
+			var wholeCopy *ssa.Store
+			for _, st := range allocStores(lit) {
+				u, isLoad := st.Val.(*ssa.UnOp)
+				if !isLoad || u.Op != token.MUL || wholeCopy != nil {
+					okLit = false
+					continue
+				}
+				hf, base, okf := fieldAddrOf(u.X)
+				if !okf || !typeIs(hf.Type(), modPath, "Header") || base != ssa.Value(recv) {
+					okLit = false
+					continue
+				}
+				wholeCopy = st
+			}
 			for _, rf := range refsOf(lit) {
 				fa, isFA := rf.(*ssa.FieldAddr)
 				if !isFA {
@@ -135,13 +152,30 @@ func ruleMirror(p *Program, r *Result) {
 						if _, dup := got[fieldName(fa)]; dup {
 							okLit = false
 						}
+						if wholeCopy != nil && !domInstr(wholeCopy, st) {
+							okLit = false // a field stored before the copy is overwritten by it
+						}
 						got[fieldName(fa)] = st.Val
 					}
 				}
 			}
 			if !okLit {
-				r.bad("R-MIRROR", key+":header-built", p.Pos(lit.Pos()), "a field of the reply header literal is stored more than once")
+				r.bad("R-MIRROR", key+":header-built", p.Pos(lit.Pos()), "a field of the reply header literal is stored more than once, or the literal is assigned as a whole from something other than the stored request header")
 				continue
+			}
+			if wholeCopy != nil {
+				for _, f := range []string{"Version", "Type", "Flags", "SessionID"} {
+					if _, explicit := got[f]; !explicit {
+						got[f] = nil
+						mirrored[f] = true
+					}
+				}
+				// the length is the writer's to set; a copy may reset it
+				if lv, has := got["Length"]; has {
+					if c, isC := constInt(lv); isC && c == 0 {
+						delete(got, "Length")
+					}
+				}
 			}
 			hdrVal = lit
 			pos = p.Pos(lit.Pos())
@@ -171,7 +205,7 @@ func ruleMirror(p *Program, r *Result) {
 		}
 		for _, f := range []string{"Version", "Type", "Flags", "SessionID"} {
 			v, ok := got[f]
-			r.cond(ok && isStored(v, f), "R-MIRROR", key+":mirror:"+f, pos,
+			r.cond(ok && (mirrored[f] || isStored(v, f)), "R-MIRROR", key+":mirror:"+f, pos,
 				"the reply's "+f+" is a copy of the stored request header's "+f,
 				"the reply's "+f+" is not copied from the stored request header")
 		}
